@@ -191,7 +191,13 @@ impl Check for Convergence {
                     }
                 }
                 5 => ops.push(jarr!["check"]),
-                6 => ops.push(jarr!["rr", o]),
+                6 => {
+                    if rng.coin() {
+                        ops.push(jarr!["rr", o]);
+                    } else {
+                        ops.push(jarr!["bounce", o]);
+                    }
+                }
                 _ => ops.push(jarr!["settle"]),
             }
         }
@@ -351,6 +357,32 @@ async fn run(case: Json, tol: Tolerate) -> Outcome {
                     t.connect(s, &pipe(2 * s), &pipe(2 * s + 1)).await;
                     out.hit("op.source-reconnect");
                 }
+            }
+            "bounce" => {
+                // an observer's session ends and comes back with its receive window shut from the
+                // moment it has answered the OPEN: the daemon's initial table dump for it stays queued
+                // while the RIB keeps changing (dump and incremental changes meet in one flush)
+                let o = n_src + op.at(1).as_usize() % n_obs;
+                if t.nodes[o].spk.conn.is_some() {
+                    t.nodes[o].spk.close();
+                    t.settle().await;
+                }
+                let Topo { w, nodes, .. } = &mut t;
+                nodes[o].spk.connect(w, &pipe(2 * o), &pipe(2 * o + 1));
+                for _ in 0..20 {
+                    t.w.quiesce().await;
+                    let now = t.now();
+                    t.nodes[o].spk.process_inbox(now);
+                    if matches!(t.nodes[o].spk.state, SpkState::OpenConfirm | SpkState::Established) {
+                        break;
+                    }
+                    tokio::time::sleep(Duration::from_millis(5)).await;
+                }
+                if let Some(c) = &t.nodes[o].spk.conn {
+                    c.ctl().set_window(false);
+                    out.hit("fault.window-closed-before-initial-dump");
+                }
+                t.w.quiesce().await;
             }
             "rr" => {
                 let o = n_src + op.at(1).as_usize() % n_obs;
